@@ -246,6 +246,35 @@ fn scripted(script: &[Step]) -> (Rc<RefCell<Shared>>, Box<dyn Write>) {
     (shared, b)
 }
 
+/// Do two runs offer their inner writers the same sequence of buffers?  Only then does the n-th scripted fault hit the
+/// same place in both, and only then are the two runs comparable call by call.
+fn same_inner_calls(a: &Shared, b: &Shared) -> bool {
+    a.calls.len() == b.calls.len() && a.calls.iter().zip(&b.calls).all(|(x, y)| x.offered == y.offered)
+}
+
+/// Pass-through under faults, for an implementation that groups its inner writes differently from the bare writer: what
+/// the inner writer holds is the concatenation, call by call, of exactly the bytes a successful call reported as
+/// consumed, of some prefix of the bytes of a failed write_all / formatted write, and of nothing for a failed `write`.
+fn passthrough_consistent(data: &[u8], ops: &[Op], results: &[Res], delivered: &[u8]) -> bool {
+    fn go(data: &[u8], ops: &[Op], results: &[Res], delivered: &[u8], i: usize, pos: usize) -> bool {
+        if i == ops.len() {
+            return pos == delivered.len();
+        }
+        let rest = &delivered[pos..];
+        let exact = |piece: &[u8]| rest.starts_with(piece) && go(data, ops, results, delivered, i + 1, pos + piece.len());
+        match (&ops[i], &results[i]) {
+            (Op::Write(a, b), Res::N(n)) | (Op::WriteVectored(a, _, b), Res::N(n)) => *a + *n <= *b && exact(&data[*a..*a + *n]),
+            (Op::WriteAll(a, b), Res::Unit) | (Op::WriteFmt(a, b), Res::Unit) => exact(&data[*a..*b]),
+            (Op::WriteAll(a, b), Res::Err(_)) | (Op::WriteFmt(a, b), Res::Err(_)) => {
+                let piece = &data[*a..*b];
+                (0..=piece.len()).rev().any(|k| rest.starts_with(&piece[..k]) && go(data, ops, results, delivered, i + 1, pos + k))
+            }
+            _ => go(data, ops, results, delivered, i + 1, pos),
+        }
+    }
+    results.len() == ops.len() && go(data, ops, results, delivered, 0, 0)
+}
+
 pub fn check_boxed(data: &[u8], ops: &[Op], script: &[Step]) -> R {
     let (sh_plain, mut plain) = scripted(script);
     let r_plain = drive(&mut plain, data, ops);
@@ -255,8 +284,12 @@ pub fn check_boxed(data: &[u8], ops: &[Op], script: &[Step]) -> R {
     let (sh_never, b) = scripted(script);
     let mut never = AutoStream::never(b);
     let r_never = drive(&mut never, data, ops);
-    same("never-boxed", "never(Box<dyn Write>) under short writes / errors", &r_never, &r_strip, ops)?;
-    same_bytes("never-boxed", "never(Box<dyn Write>)", &sh_never.borrow().delivered, &sh_strip.borrow().delivered)?;
+    // call-by-call comparison under faults needs both runs to meet the n-th fault at the same place; a never-colour
+    // stream that groups its inner writes differently from StripStream is judged by C06's contract oracle instead
+    if same_inner_calls(&sh_never.borrow(), &sh_strip.borrow()) {
+        same("never-boxed", "never(Box<dyn Write>) under short writes / errors", &r_never, &r_strip, ops)?;
+        same_bytes("never-boxed", "never(Box<dyn Write>)", &sh_never.borrow().delivered, &sh_strip.borrow().delivered)?;
+    }
     choice_is("never-boxed", never.current_choice(), ColorChoice::Never)?;
     if sh_never.borrow().flushes != sh_strip.borrow().flushes {
         return Err(("c08:never-boxed:flush".into(), "flush is not forwarded like the strip stream does".into()));
@@ -265,8 +298,12 @@ pub fn check_boxed(data: &[u8], ops: &[Op], script: &[Step]) -> R {
         let (sh, b) = scripted(script);
         let mut s = if which == 0 { AutoStream::always_ansi(b) } else { AutoStream::new(b, ColorChoice::Always) };
         let r = drive(&mut s, data, ops);
-        same("always-boxed", "pass-through over Box<dyn Write> under short writes / errors", &r, &r_plain, ops)?;
-        same_bytes("always-boxed", "pass-through over Box<dyn Write>", &sh.borrow().delivered, &sh_plain.borrow().delivered)?;
+        if same_inner_calls(&sh.borrow(), &sh_plain.borrow()) {
+            same("always-boxed", "pass-through over Box<dyn Write> under short writes / errors", &r, &r_plain, ops)?;
+            same_bytes("always-boxed", "pass-through over Box<dyn Write>", &sh.borrow().delivered, &sh_plain.borrow().delivered)?;
+        } else if !passthrough_consistent(data, ops, &r, &sh.borrow().delivered) {
+            return Err(("c08:always-boxed:bytes".into(), format!("pass-through over Box<dyn Write> under short writes / errors: the inner writer holds {:?}, which is not the bytes the calls reported as consumed (results {:?})", show(&sh.borrow().delivered[..sh.borrow().delivered.len().min(120)]), &r[..r.len().min(12)])));
+        }
         if sh.borrow().flushes != sh_plain.borrow().flushes {
             return Err(("c08:always-boxed:flush".into(), "flush is not forwarded".into()));
         }
@@ -475,8 +512,66 @@ fn generate(seed: u64, i: u64, maxlen: usize) -> Gen {
     Gen { data, ops, script, kind: i % 50 }
 }
 
+/// a value whose Display hands over its text and then reports an error
+struct FailAfter<'a>(&'a str);
+impl std::fmt::Display for FailAfter<'_> {
+    fn fmt(&self, f: &mut std::fmt::Formatter<'_>) -> std::fmt::Result {
+        f.write_str(self.0)?;
+        Err(std::fmt::Error)
+    }
+}
+
+/// Formatted writes with unusual values, on writers that never fail: (1) in never-colour mode a value whose Display fails
+/// after emitting text - the stream delivers what the strip stream delivers and reports like it; (2) a small, a large
+/// (around 1 / 4 / 8 / 64 KiB) and a small fragment in one call - in every mode the bytes arrive in order.
+pub fn check_special_values(data: &[u8], kind: u64) -> R {
+    let text = String::from_utf8_lossy(&data[..data.len().min(300)]).into_owned();
+    let m = char_floor(&text, text.len() / 2);
+    let (a, b) = text.split_at(m);
+    // (1)
+    let mut strip = StripStream::new(Vec::new());
+    let r_strip = write!(strip, "<{}{}|", Frag(a), FailAfter(b)).is_ok();
+    let r_strip2 = write!(strip, "tail").is_ok();
+    let want = strip.into_inner();
+    for (name, mut s) in [("new(Never)", AutoStream::new(Vec::new(), ColorChoice::Never)), ("never()", AutoStream::never(Vec::new()))] {
+        let r = write!(s, "<{}{}|", Frag(a), FailAfter(b)).is_ok();
+        let r2 = write!(s, "tail").is_ok();
+        if (r, r2) != (r_strip, r_strip2) {
+            return Err(("c08:never:results".into(), format!("{name}: a formatted write with a value whose Display fails returned ok={r} (next call ok={r2}); the strip stream: ok={r_strip} / ok={r_strip2}")));
+        }
+        same_bytes("never", &format!("{name} after a value whose Display fails"), &s.into_inner(), &want)?;
+    }
+    // (2)
+    let size = [1023usize, 1024, 1025, 4095, 4096, 4097, 8191, 8192, 8193, 65536][(kind % 10) as usize];
+    let body: String = text.chars().filter(|c| !c.is_control()).cycle().take(size.max(1)).collect::<String>();
+    let body = if body.is_empty() { "z".repeat(size) } else { body };
+    let mut plain: Vec<u8> = vec![];
+    let _ = write!(plain, "[{a}]{body}{b}\n{a}");
+    let mut strip = StripStream::new(Vec::new());
+    let _ = write!(strip, "[{a}]{body}{b}\n{a}");
+    let stripped = strip.into_inner();
+    for (name, mut s, want) in [
+        ("always_ansi()", AutoStream::always_ansi(Vec::new()), &plain),
+        ("new(Always)", AutoStream::new(Vec::new(), ColorChoice::Always), &plain),
+        ("never()", AutoStream::never(Vec::new()), &stripped),
+    ] {
+        if write!(s, "[{a}]{body}{b}\n{a}").is_err() {
+            return Err(("c08:large-fragment:results".into(), format!("{name}: a formatted write with a {size}-byte fragment into a Vec failed")));
+        }
+        let got = s.into_inner();
+        if &got != want {
+            let i = got.iter().zip(want.iter()).position(|(x, y)| x != y).unwrap_or(got.len().min(want.len()));
+            return Err(("c08:large-fragment:bytes".into(), format!("{name}: a formatted write with a small, a {size}-byte and a small fragment delivered {} bytes, expected {}; first difference at byte {i}: {:?} / {:?}", got.len(), want.len(), show(&got[i..got.len().min(i + 40)]), show(&want[i..want.len().min(i + 40)]))));
+        }
+    }
+    Ok(())
+}
+
 fn run_case(g: &Gen, auto_too: bool) -> R {
     check_vec(&g.data, &g.ops, auto_too)?;
+    if g.kind % 5 == 2 {
+        check_special_values(&g.data, g.kind / 5)?;
+    }
     check_boxed(&g.data, &g.ops, &g.script)?;
     check_buffer(&g.data, &g.ops)?;
     check_dyn_kinds(&g.data, &g.ops)?;
